@@ -994,5 +994,12 @@ V('C12', 'parameter-settings-filtered-before-the-patches', 'fire', 'C12.R12', "p
   ('src/pyhf/workspace.py', "            'parameters': measurement['config']['parameters'],\n", "            'parameters': [p for p in measurement['config']['parameters'] if p['name'] in {name for name, _ in self.modifiers}],\n"))
 V('C12', 'parameter-settings-filtered-after-the-patches', 'silent', '', 'parameter settings are filtered to the modifiers of the PATCHED specification',
   ('src/pyhf/workspace.py', '        return Model(modelspec, **config_kwargs)\n', "        _names = {m['name'] for ch in modelspec['channels'] for smp in ch['samples'] for m in smp['modifiers']}\n        modelspec = dict(modelspec, parameters=[p for p in modelspec['parameters'] if p['name'] in _names])\n        return Model(modelspec, **config_kwargs)\n"))
+V('C19', 'join-default-from-reordered-table', 'fire', 'C19.R8', '--join defaults to the first entry of Workspace.valid_joins AND the table is reordered',
+  ('src/pyhf/cli/spec.py', "    '--join',\n    default='none',\n", "    '--join',\n    default=Workspace.valid_joins[0],\n"),
+  ('src/pyhf/workspace.py', "    valid_joins: ClassVar[list[str]] = ['none', 'outer', 'left outer', 'right outer']\n", "    valid_joins: ClassVar[list[str]] = ['outer', 'left outer', 'right outer', 'none']\n"))
+V('C19', 'join-default-from-table-only', 'silent', '', "--join defaults to the first entry of Workspace.valid_joins (still 'none')",
+  ('src/pyhf/cli/spec.py', "    '--join',\n    default='none',\n", "    '--join',\n    default=Workspace.valid_joins[0],\n"))
+V('C19', 'valid-joins-reordered-only', 'silent', '', 'Workspace.valid_joins reordered (the option keeps its literal default)',
+  ('src/pyhf/workspace.py', "    valid_joins: ClassVar[list[str]] = ['none', 'outer', 'left outer', 'right outer']\n", "    valid_joins: ClassVar[list[str]] = ['outer', 'left outer', 'right outer', 'none']\n"))
 V("C13", "code4-exponent-mask-strict", "fire", "C13.R3", "code 4 takes exponent 1 (a constant) exactly at |alpha| = alpha0",
   ("src/pyhf/interpolators/code4.py", "            exponents >= self.__alpha0, exponents, self.ones", "            exponents > self.__alpha0, exponents, self.ones"))
